@@ -330,6 +330,7 @@ func (c *c20) execCx(f []string) string {
 			if pr.cli == nil {
 				continue
 			}
+			destroyedBefore := counterMap(prefix)["downstream.cx_destroy_total"]
 			if a[0] == 'c' {
 				pr.cli.Close()
 				if pr.be != nil {
@@ -344,6 +345,10 @@ func (c *c20) execCx(f []string) string {
 				pr.cli.Close()
 			}
 			pr.cli, pr.be = nil, nil
+			// the next action must see the registry without this connection
+			for k := 0; k < 500 && counterMap(prefix)["downstream.cx_destroy_total"] == destroyedBefore; k++ {
+				time.Sleep(2 * time.Millisecond)
+			}
 		case a == "d":
 			if ln != nil {
 				ln.Close()
